@@ -392,7 +392,20 @@ func c10ReadPath(w *World, r *Report) {
 			ob.Site(ci.Pos(), "read helper called from "+FnName(encl)+" with linearizable="+e)
 			wv, ok := want[encl.Name()]
 			if !ok {
-				ob.Violate("read-site-unknown@"+FnName(encl), ci.Pos(), "new call site of the read helper in "+FnName(encl)+" (linearizable="+e+"): not in the reviewed table")
+				// a call site that was not there when the table was reviewed: if it reads table
+				// data (a range, a transaction, an iterator or a snapshot request) its flag is the
+				// request's own or the constant true; a status / index request of another type is
+				// not one of the reads the property speaks about
+				dyn := ""
+				if len(ci.Common().Args) > 3 {
+					if mi, isMI := ci.Common().Args[3].(*ssa.MakeInterface); isMI {
+						dyn = typeString(mi.X.Type())
+					}
+				}
+				data := strings.HasSuffix(dyn, "RequestOp_Range") || strings.HasSuffix(dyn, "TxnRequest") || strings.HasSuffix(dyn, "fsm.IteratorRequest") || strings.HasSuffix(dyn, "fsm.SnapshotRequest") || dyn == ""
+				if data && e != "true" && !strings.HasSuffix(e, ".Linearizable") {
+					ob.Violate("read-site-unknown@"+FnName(encl), ci.Pos(), "new call site of the read helper in "+FnName(encl)+" reads table data ("+dyn+") with linearizable="+e+": neither the request's flag nor the constant true")
+				}
 				continue
 			}
 			if e != wv {
